@@ -147,19 +147,50 @@ def main():
             os.makedirs(rdir, exist_ok=True)
             rpath = os.path.join(rdir, "%s_%d.json" % (tier, nrep))
             nrep += 1
-            with open(rpath, "w") as f:
-                json.dump({"property_id": pid, "cause": cause, "case": v["case"],
-                           "msg": v.get("msg"), "seed": seed, "count": len(vs)}, f, indent=1, default=str)
-            # confirm: replay twice in fresh processes
-            obs = []
-            for k in range(2):
-                o = os.path.join(tmp, "rp%d_%d.json" % (nrep, k))
-                rc2 = run_child(st, [pid, "--replay", rpath, "--seed", str(seed)], o, extra_env)
-                if rc2 != 0 or not os.path.exists(o):
-                    obs.append(None)
-                else:
-                    obs.append(json.load(open(o)))
-            if obs[0] is None or obs[1] is None or obs[0] != obs[1] or not obs[0].get("violated"):
+
+            def confirm(case):
+                """write the replay file and replay it twice in fresh processes -> True iff the same cause shows both times"""
+                with open(rpath, "w") as f:
+                    json.dump({"property_id": pid, "cause": cause, "case": case,
+                               "msg": v.get("msg"), "seed": seed, "count": len(vs)}, f, indent=1, default=str)
+                obs = []
+                for k in range(2):
+                    o = os.path.join(tmp, "rp%d_%d.json" % (nrep, k))
+                    if os.path.exists(o):
+                        os.unlink(o)
+                    rc2 = run_child(st, [pid, "--replay", rpath, "--seed", str(seed)], o, extra_env)
+                    if rc2 != 0 or not os.path.exists(o):
+                        obs.append(None)
+                    else:
+                        obs.append(json.load(open(o)))
+                return obs, not (obs[0] is None or obs[1] is None or obs[0] != obs[1] or not obs[0].get("violated"))
+
+            # a violation that depends on what earlier cases left behind in the interpreter does not replay from its own
+            # case alone: try a few other witnesses of the same cause, then the recorded history (shortest suffix first)
+            obs, ok = None, False
+            tried = []
+            for cand in vs[:4]:
+                if cand["case"] in tried:
+                    continue
+                tried.append(cand["case"])
+                v = cand
+                obs, ok = confirm(cand["case"])
+                if ok:
+                    break
+            if not ok:
+                for cand in vs:
+                    hist = (cand.get("alt_case") or {}).get("history")
+                    if not hist:
+                        continue
+                    v = cand
+                    k = 2
+                    while not ok:
+                        obs, ok = confirm({"history": hist[-k:]})
+                        if k >= len(hist):
+                            break
+                        k *= 2
+                    break
+            if not ok:
                 print("MACHINERY: violation %s did not replay deterministically: %r" % (rpath, obs), file=sys.stderr)
                 machinery_fail = True
                 continue
